@@ -1,13 +1,21 @@
 PROPERTY = "C12"
 LEVEL = "proof"
-LEAN_MODULES = ["CifModel.Props.C12", "CifModel.Lemmas.ParserTop"]
+LEAN_MODULES = ["CifModel.Props.C12", "CifModel.Lemmas.ParserTop", "CifModel.Props.C12Lex"]
 REQUIRED = ["CifModel.C12_clean", "CifModel.C12_first_report_is_policy_free", "CifModel.C12_missing_value_instance",
             "CifModel.C12_unexpected_value_instance", "CifModel.C12_dup_scalar_instance", "CifModel.C12_dup_loop_header_instance",
             "CifModel.C12_partial_packet_instance", "CifModel.C12_empty_and_null_loop_instance", "CifModel.C12_no_block_header_instance",
             "CifModel.C12_delimiters_instance", "CifModel.C12_table_keys_instance", "CifModel.C12_key_at_container_level_instance",
             "CifModel.C12_frames_instance", "CifModel.Model.Parser.parse_spec",
             "CifModel.C12_missing_value", "CifModel.C12_unexpected_value", "CifModel.C12_dup_itemname", "CifModel.C12_empty_loop",
-            "CifModel.C12_no_block_header", "CifModel.C12_partial_packet", "CifModel.C12_dup_header_name"]
+            "CifModel.C12_no_block_header", "CifModel.C12_partial_packet", "CifModel.C12_dup_header_name",
+            "CifModel.C12_unexpected_delim", "CifModel.C12_unexpected_term", "CifModel.C12_missing_delim_list",
+            "CifModel.C12_missing_delim_table", "CifModel.C12_table_missing_value", "CifModel.C12_misquoted_key",
+            "CifModel.C12_missing_key", "CifModel.C12_missing_key_word", "CifModel.C12_null_key", "CifModel.C12_unquoted_key",
+            "CifModel.C12_null_key_word", "CifModel.C12_frame_unterminated", "CifModel.C12_eof_in_frame",
+            "CifModel.C12_no_frame_term", "CifModel.C12_frame_nesting_depth", "CifModel.C12_frame_not_allowed",
+            "CifModel.C12_scanner_report_in_element_position", "CifModel.C12_null_loop", "CifModel.C12_invalid_itemname",
+            "CifModel.C12_invalid_framecode", "CifModel.C12_dup_framecode", "CifModel.C12_invalid_blockcode",
+            "CifModel.C12_dup_blockcode"]
 GEN = ["ErrCodes", "CharClass", "ParseConsts"]
 FAMILIES = ["defect"]
 TRUSTED_BASE = [
